@@ -30,7 +30,7 @@ ASSUMPTIONS = ['hash randomisation only affects str/bytes keys (ints hash to the
                'names and values rather than setting codes',
                'exception messages are not compared (hpack puts object addresses into some)']
 TIERS = {'quick': {'cases': 1600, 'size': 700},
-         'thorough': {'cases': 60000, 'size': 1800}}
+         'thorough': {'cases': 120000, 'size': 1800}}
 CHILD_SEEDS = ('1', '987654321')
 _children = None
 
